@@ -2,7 +2,14 @@
 //! every service boundary that logs the Tower-contract events (`clone`, `poll_ready`, `call`).
 //!
 //! header: `stack layers=<outermost,…,innermost> inner=strict|climit|buffer [ready=<script>] [rec=<ms>] [cl=<n>] [lp=<mask>]
-//!          [ls=<mask> lsms=<ms>] [lq=<n> lqinner=<lat:out>]`
+//!          [ls=<mask> lsms=<ms>] [lq=<n> lqinner=<lat:out>] [rl=<limit>:<period ms>:<fixed|log|counter>:<timeout ms>] [lpt=<mask>]`
+//! `rl=…`: the configuration of every `ratelimiter` layer of the stack (default `100000:1000:fixed:0`, never at its limit): with a
+//! small limit the limiter is a TRIGGERING layer — it rejects (`ratelimiter!limited`, nothing forwarded) or, with a non-zero
+//! timeout, delays requests while its window is used up, and is transparent again once the window has rolled over; its
+//! decisions are logged (`rl <layer> acquired|rejected`, by a listener) so that the monitors can tell which is which.
+//! reconnect (one callback per kind, crate feature `tracing`): `on_state_change` runs the three counting listeners (and panics
+//! when one of them did — only on the transitions in `lpt=<mask>`, bit 0 Connected→Disconnected, bit 1 Disconnected→Reconnecting,
+//! bit 2 →Connected; default 7), `on_reconnect` is listener 3 (`lp` bit 3): `probe listeners … cb=<told> twincb=<told>`.
 //! `rec=<ms>`: every instance of the scripted inner service answers `Pending` to `poll_ready` for that long after a call
 //! (time-based, with a timer wake-up; clones start recovered) — a retry / reconnect attempt must wait for it;
 //! with `recall=1` the whole service recovers: after a call on any instance every instance, fresh clones included,
@@ -286,20 +293,42 @@ pub struct ListenerCounts {
     /// listeners (bit mask) that take `slow_ms` of wall time (the virtual std clock is moved forward)
     pub slow_mask: u64,
     pub slow_ms: u64,
+    /// reconnect's `on_state_change` callback: the transitions (bit 0 Connected→Disconnected, bit 1
+    /// Disconnected→Reconnecting, bit 2 →Connected) on which the listeners named by `panic_mask` panic
+    pub transition_mask: u64,
+    /// the twin's listeners log nothing
+    pub quiet: bool,
 }
+/// `counts[CB]`: how often a crate's SECOND callback was told its event — for crates that have one callback per kind of
+/// event instead of a listener list (reconnect: `on_reconnect`, next to `on_state_change`, which runs listeners 0..2)
+const CB: usize = 3;
 impl ListenerCounts {
     fn hit(&self, i: usize) {
+        self.hit_if(i, true)
+    }
+    /// count the event; panic (when the mask says so) only if `may_panic`
+    fn hit_if(&self, i: usize, may_panic: bool) {
         self.counts[i].fetch_add(1, Ordering::SeqCst);
         if self.slow_mask & (1 << i) != 0 {
             bump_std_clock(self.slow_ms);
         }
-        if self.panic_mask & (1 << i) != 0 {
+        if may_panic && self.panic_mask & (1 << i) != 0 {
             panic!("listener {} panics", i);
         }
     }
+    /// the three listeners registered with every layer
     fn render(&self) -> String {
-        let v: Vec<String> = self.counts.iter().map(|c| c.load(Ordering::SeqCst).to_string()).collect();
+        let v: Vec<String> = self.counts.iter().take(CB).map(|c| c.load(Ordering::SeqCst).to_string()).collect();
         v.join(",")
+    }
+    fn render_cb(&self) -> String {
+        self.counts[CB].load(Ordering::SeqCst).to_string()
+    }
+    /// a decision of a triggering layer, reported by one of its listeners (observed stack only)
+    fn note(&self, what: String) {
+        if !self.quiet {
+            log(what);
+        }
     }
 }
 
@@ -588,7 +617,7 @@ fn layer_spawns(name: &str) -> bool {
 }
 
 /// Apply layer `name` (in a non-triggering configuration unless the name says otherwise) to `inner`.
-fn apply(name: &str, inner: BoxSvc, lc: &Arc<ListenerCounts>, pr: &Option<Arc<Prober>>, j: usize) -> Option<BoxSvc> {
+fn apply(name: &str, inner: BoxSvc, lc: &Arc<ListenerCounts>, pr: &Option<Arc<Prober>>, j: usize, kv: &Kv) -> Option<BoxSvc> {
     let l0 = lc.clone();
     let l1 = lc.clone();
     let l2 = lc.clone();
@@ -623,17 +652,31 @@ fn apply(name: &str, inner: BoxSvc, lc: &Arc<ListenerCounts>, pr: &Option<Arc<Pr
                 BulkheadServiceError::Bulkhead(x) => SErr(format!("bulkhead!{:?}", x)),
             }))
         }
+        // `rl=<limit>:<period ms>:<fixed|log|counter>:<timeout ms>` (header): with a small limit a TRIGGERING configuration
         "ratelimiter" => {
-            use tower_resilience_ratelimiter::{RateLimiterLayer, RateLimiterServiceError};
+            use tower_resilience_ratelimiter::{RateLimiterLayer, RateLimiterServiceError, WindowType};
+            let rl = kv.str("rl", "");
+            let small = !rl.is_empty();
+            let p: Vec<&str> = rl.split(':').collect();
+            let num = |i: usize, d: u64| p.get(i).and_then(|x| x.parse::<u64>().ok()).unwrap_or(d);
+            let window = match p.get(2).copied().unwrap_or("fixed") {
+                "log" => WindowType::SlidingLog,
+                "counter" => WindowType::SlidingCounter,
+                _ => WindowType::Fixed,
+            };
+            let (n0, n1) = (lc.clone(), lc.clone());
             let layer = RateLimiterLayer::builder()
-                .limit_for_period(100_000)
-                .refresh_period(Duration::from_secs(1))
-                .timeout_duration(Duration::ZERO)
+                .limit_for_period(num(0, 100_000) as usize)
+                .refresh_period(Duration::from_millis(num(1, 1000)))
+                .window_type(window)
+                .timeout_duration(Duration::from_millis(num(3, 0)))
                 .on_permit_acquired(move |_| l0.hit(0))
                 .on_permit_acquired(move |_| m0())
                 .on_permit_rejected(move |_| m1())
                 .on_permit_acquired(move |_| l1.hit(1))
                 .on_permit_acquired(move |_| l2.hit(2))
+                .on_permit_acquired(move |_| if small { n0.note(format!("rl {} acquired", j)) })
+                .on_permit_rejected(move |_| if small { n1.note(format!("rl {} rejected", j)) })
                 .build();
             boxed(map_e(layer.layer(inner), |e| match e {
                 RateLimiterServiceError::Inner(e) => SErr(format!("ratelimiter({})", e)),
@@ -778,21 +821,27 @@ fn apply(name: &str, inner: BoxSvc, lc: &Arc<ListenerCounts>, pr: &Option<Arc<Pr
         }
         // reconnect: errors whose text contains `ierr1` are connection failures (retried after 5 ms, at
         // most twice); its callbacks exist only under the crate's `tracing` feature and are single
-        // closures, not `EventListeners`: no listeners here
+        // closures, one per kind of event, not `EventListeners`: BOTH are registered
         "reconnect" => {
-            use tower_resilience_reconnect::{ReconnectConfig, ReconnectLayer, ReconnectPolicy};
+            use tower_resilience_reconnect::{ConnectionState, ReconnectConfig, ReconnectLayer, ReconnectPolicy};
             let cfg = ReconnectConfig::builder()
                 .policy(ReconnectPolicy::fixed(Duration::from_millis(5)))
                 .max_attempts(2)
                 .retry_on_reconnect(true)
                 .reconnect_predicate(|e| e.to_string().contains("ierr1"))
-                // the crate (feature `tracing`) has one callback per kind, not a listener list: run the three
-                // listeners inside it, each under catch_unwind, and let the callback itself panic if one of them did
-                .on_state_change(move |_, _| {
+                // `on_state_change`: run the three listeners inside it, each under catch_unwind, and let the callback itself
+                // panic if one of them did — on the transitions of `lpt` only (a callback that chokes on one kind of news)
+                .on_state_change(move |from, to| {
+                    let bit = match (from, to) {
+                        (ConnectionState::Connected, ConnectionState::Disconnected) => 1,
+                        (ConnectionState::Disconnected, ConnectionState::Reconnecting) => 2,
+                        _ => 4,
+                    };
+                    let may = l0.transition_mask & bit != 0;
                     let mut panicked = false;
                     for i in 0..3 {
                         let l = l0.clone();
-                        if std::panic::catch_unwind(std::panic::AssertUnwindSafe(move || l.hit(i))).is_err() {
+                        if std::panic::catch_unwind(std::panic::AssertUnwindSafe(move || l.hit_if(i, may))).is_err() {
                             panicked = true;
                         }
                     }
@@ -800,6 +849,9 @@ fn apply(name: &str, inner: BoxSvc, lc: &Arc<ListenerCounts>, pr: &Option<Arc<Pr
                         panic!("state-change callback panics");
                     }
                 })
+                // `on_reconnect`: the other observer of "a reconnect attempt starts" (listener 3: counted in `counts[CB]`,
+                // panics with `lp` bit 3); whatever `on_state_change` does, it must be told every attempt
+                .on_reconnect(move |_attempt| l1.hit(CB))
                 .build();
             let layer = ReconnectLayer::new(cfg);
             boxed(map_e(layer.layer(inner), |e| reconnect_err(e.to_string())))
@@ -895,10 +947,12 @@ impl Stack {
         let n = layers.len();
         let sh = Arc::new(TapShared { next: Mutex::new(vec![1; n + 1]), quiet });
         let lc = Arc::new(ListenerCounts {
-            counts: (0..3).map(|_| AtomicU64::new(0)).collect(),
+            counts: (0..=CB).map(|_| AtomicU64::new(0)).collect(),
             panic_mask: lp,
             slow_mask: if quiet { 0 } else { kv.u64("ls", 0) },
             slow_ms: kv.u64("lsms", 90),
+            transition_mask: kv.u64("lpt", 7),
+            quiet,
         });
         let kind = kv.str("inner", "strict");
         let script = if kind == "strict" { kv.str("ready", "") } else { String::new() };
@@ -909,7 +963,7 @@ impl Stack {
         let pr = if lq > 0 || lqe > 0 { Some(Arc::new(Prober::new(lq, lqe, kv.u64("lqat", 0) as usize, kv.str("lqinner", "0:ok"), quiet))) } else { None };
         let mut svc = tap(b, n, &sh);
         for (j, name) in layers.iter().enumerate().rev() {
-            svc = match apply(name, svc, &lc, &pr, j) {
+            svc = match apply(name, svc, &lc, &pr, j, kv) {
                 Some(s) => tap(s, j, &sh),
                 None => {
                     if !quiet {
@@ -1089,16 +1143,29 @@ pub struct Adapter {
     reported: BTreeSet<u64>,
     /// see `Pair::lenient`
     lenient: bool,
+    /// a layer with single callbacks (reconnect) is in the stack
+    has_cb: bool,
 }
 
 impl Adapter {
+    /// ` cb=<n> [twincb=<n>]`: how often the second callback of the one-callback-per-kind crates (reconnect's `on_reconnect`)
+    /// was told its event; only printed for stacks with such a layer (other logs stay as they were)
+    fn cb(&self, twin: Option<&Stack>) -> String {
+        if !self.has_cb {
+            return String::new();
+        }
+        match twin {
+            Some(t) => format!(" cb={} twincb={}", self.main.lc.render_cb(), t.lc.render_cb()),
+            None => format!(" cb={}", self.main.lc.render_cb()),
+        }
+    }
     pub fn new(kv: &Kv) -> Adapter {
         let layers: Vec<String> = kv.str("layers", "").split(',').filter(|s| !s.is_empty()).map(|s| s.to_string()).collect();
         let lp = kv.u64("lp", 0);
         let spawning = layers.iter().filter(|l| layer_spawns(l)).count() + (kv.str("inner", "strict") == "buffer") as usize;
         let main = Stack::new(kv, &layers, lp, false);
         let twin = if lp != 0 || kv.u64("ls", 0) != 0 || kv.u64("lq", 0) != 0 || kv.u64("lqe", 0) != 0 { Some(Stack::new(kv, &layers, 0, true)) } else { None };
-        Adapter { main, twin, yields: if spawning == 0 { 0 } else { 8 * (spawning + 1) }, reported: BTreeSet::new(), lenient: kv.u64("lqe", 0) != 0 }
+        Adapter { main, twin, yields: if spawning == 0 { 0 } else { 8 * (spawning + 1) }, reported: BTreeSet::new(), lenient: kv.u64("lqe", 0) != 0, has_cb: layers.iter().any(|l| l == "reconnect") }
     }
     /// `presult <k> <outcome> twin=<outcome>` for every probe finished on both sides (`all`: for every probe made)
     fn report_probes(&mut self, all: bool) {
@@ -1165,8 +1232,8 @@ impl Mw for Adapter {
         }
         if what == "listeners" {
             match &self.twin {
-                Some(t) => log(format!("probe listeners {} twin={}", self.main.lc.render(), t.lc.render())),
-                None => log(format!("probe listeners {}", self.main.lc.render())),
+                Some(t) => log(format!("probe listeners {} twin={}{}", self.main.lc.render(), t.lc.render(), self.cb(Some(t)))),
+                None => log(format!("probe listeners {}{}", self.main.lc.render(), self.cb(None))),
             }
         }
     }
